@@ -39,7 +39,7 @@ def gen_case(rng: random.Random, tier: str) -> dict:
     if fns and rng.random() < 0.35:
         for fi in range(2 if rng.random() < 0.25 else 1):
             nd, _d = rng.choice(fns)
-            faults.append({"kind": "raise", "node": nd["name"], "inv": rng.choice([0, 0, 0, 1, None]), "when": rng.choice(["before", "after"]), "fid": fi})
+            faults.append({"kind": "raise", "node": nd["name"], "inv": rng.choice([0, 0, 0, 1, None]), "when": rng.choice(["before", "after"]), "fid": fi, "exc": rng.choice(gen.EXC_KINDS)})
     has_loop = bool(g["seeds"])
     doc = {
         "graph": g,
@@ -52,6 +52,7 @@ def gen_case(rng: random.Random, tier: str) -> dict:
         "perm_seed": rng.randrange(1 << 30),
         "tier": tier,
         "touch": rng.random() < 0.25,
+        "api": gen.gen_api(rng),
         "kw_split": rng.randrange(1 << 30) if rng.random() < 0.25 else None,
     }
     return doc
@@ -163,6 +164,7 @@ def run_case(doc: dict) -> dict:
     def world(gspec, mode, cfg=None):
         if doc.get("touch"):
             gspec = _with_touch(gspec)
+        gspec = gen.with_api(gspec, doc.get("api"))
         w = run_world(gspec, values, mode=mode, cfg=cfg, faults=copy.deepcopy(faults), run_kwargs=dict(kw), kw_split=doc.get("kw_split"))
         rts.append(w["rt"])
         res["runs"] += 1
